@@ -100,6 +100,34 @@ control("C19", "category-only form takes the base unit instead of the default un
         [(A, "                        unit = category_info.default_unit\n                        assert unit is not None", "                        unit = unit_database.GetBaseUnit(category_info.quantity_type)\n                        assert unit is not None")], "C19.R2")
 
 
+# ------------------------------------------------------------------------------------------ C07
+control("C07", "deepcopy dropped before _MatchQuantities",
+        [(UD, "            category_to_unit_and_exp1 = copy.deepcopy(quantity1.GetCategoryToUnitAndExps())", "            category_to_unit_and_exp1 = quantity1.GetCategoryToUnitAndExps()")], "C07.R3")
+control("C07", "deepcopy weakened to a shallow copy",
+        [(UD, "            category_to_unit_and_exp2 = copy.deepcopy(quantity2.GetCategoryToUnitAndExps())", "            category_to_unit_and_exp2 = copy.copy(quantity2.GetCategoryToUnitAndExps())")], "C07.R3")
+control("C07", "GetCategoryToUnitAndExpsCopy shares the inner lists",
+        [(Q, "            (category, unit_and_exp[:]) for (category, unit_and_exp) in unit_and_exps.items()", "            (category, unit_and_exp) for (category, unit_and_exp) in unit_and_exps.items()")], "C07.R3")
+control("C07", "_CreateDerived keeps the caller's inner lists",
+        [(Q, "                (category, unit_and_exp[:])\n                for (category, unit_and_exp) in category_to_unit_and_exps.items()", "                (category, unit_and_exp)\n                for (category, unit_and_exp) in category_to_unit_and_exps.items()")], "C07.R4")
+control("C07", "caption dropped from a cache key",
+        [(Q, "        key_with_resolved_category = (category, unit, unknown_unit_caption)", "        key_with_resolved_category = (category, unit)")], "C07.R5")
+control("C07", "a constructed quantity is not interned",
+        [(Q, "        quantities_cache[key] = quantity = Quantity(category, unit, unknown_unit_caption)\n        return quantity", "        quantity = Quantity(category, unit, unknown_unit_caption)\n        return quantity")], "C07.R5")
+control("C07", "__eq__ ignores the caption",
+        [(Q, "            == tuple(other._category_to_unit_and_exps.items())\n            and self._unknown_unit_caption == other._unknown_unit_caption", "            == tuple(other._category_to_unit_and_exps.items())")], "C07.R6")
+control("C07", "__hash__ adds the unit string",
+        [(Q, "            lst.append(self._unknown_unit_caption)  # type:ignore[arg-type]", "            lst.append(self._unknown_unit_caption)  # type:ignore[arg-type]\n            lst.append(self._tobase)")], "C07.R6")
+control("C07", "__deepcopy__ returns a new object",
+        [(Q, "    def __deepcopy__(self, *args: object, **kwargs: object) -> \"Quantity\":\n        \"\"\"\n        As we're now immutable, always return itself.\n        \"\"\"\n        return self",
+          "    def __deepcopy__(self, *args: object, **kwargs: object) -> \"Quantity\":\n        \"\"\"\n        As we're now immutable, always return itself.\n        \"\"\"\n        return Quantity(self._category, self._unit)")], "C07.R7")
+control("C07", "__reduce__ forgets the trailing None",
+        [(Q, "        else:\n            lst.append(None)\n        return _ObtainReduced, (lst,)", "        return _ObtainReduced, (lst,)")], "C07.R8")
+control("C07", "a getter rebinds a frozen slot",
+        [(Q, "    def GetQuantityType(self) -> str:\n        return self._quantity_type", "    def GetQuantityType(self) -> str:\n        self._unit = self._unit.strip()\n        return self._quantity_type")], "C07.R1")
+control("C07", "a setter stops raising",
+        [(Q, "        raise ReadOnlyError(\"Quantity is now read-only.\")", "        self._unknown_unit_caption = caption")], "C07.R2")
+control("C07", "removal loop edits the operand's own map",
+        [(UD, "        category_to_unit_and_exp1 = quantity1.GetCategoryToUnitAndExpsCopy()", "        category_to_unit_and_exp1 = quantity1.GetCategoryToUnitAndExps()")], "C07.R3")
 # ------------------------------------------------------------------------------------------ running
 def _apply(edits):
     overlay = {}
